@@ -612,6 +612,35 @@ func (eng *Engine) SolveAll(obls []*Obligation, axioms []*Term) {
 		}(g)
 	}
 	wg.Wait()
+	// Robustness under machine load: an obligation no solver decided within the budget is tried once
+	// more, few at a time, with three times the budget, before it is reported as not discharged.
+	var again []*Obligation
+	for _, o := range obls {
+		if !o.Cover && o.Result != nil && o.Result.Status != "unsat" && o.Result.Status != "sat" {
+			again = append(again, o)
+		}
+	}
+	if len(again) > 0 && len(again) <= 40 {
+		base := eng.timeoutS
+		eng.timeoutS = 3 * base
+		sem2 := make(chan struct{}, 4)
+		for _, o := range again {
+			wg.Add(1)
+			go func(o *Obligation) {
+				defer wg.Done()
+				sem2 <- struct{}{}
+				defer func() { <-sem2 }()
+				first := o.Result
+				solveOne(o)
+				o.Result.Retried = true
+				if o.Result.Status != "unsat" && o.Result.Status != "sat" {
+					o.Result.Seconds += first.Seconds
+				}
+			}(o)
+		}
+		wg.Wait()
+		eng.timeoutS = base
+	}
 }
 
 // Verdict classifies an obligation after solving.
